@@ -53,6 +53,17 @@ Definition unlocked_writers (f : string) (t : list access) : list string :=
   dedup (map a_func (filter (fun a => String.eqb (a_field a) f && is_w a && live_phase a &&
                                        match a_locks a with [] => true | _ => false end) t)).
 
+(* ---- atomic regions (generated next to the lock table): does ONE acquisition of [af_lock] cover every access the
+   function (callees included) makes to the fields the lock guards, and the datapath writes it issues? *)
+Record atomic_fn := AF { af_func : string; af_lock : string; af_accesses : nat; af_covered : bool;
+                         af_dp_calls : nat; af_dp_inside : bool }.
+(* a requirement: function name, and whether its datapath write belongs to the step *)
+Definition atomic_req := (string * bool)%type.
+Definition meets (r : atomic_req) (a : atomic_fn) : bool :=
+  String.eqb (af_func a) (fst r) && af_covered a && Nat.ltb 0 (af_accesses a) && (negb (snd r) || af_dp_inside a).
+Definition atomic_ok (reqs : list atomic_req) (t : list atomic_fn) : bool :=
+  forallb (fun r => existsb (meets r) t) reqs.
+
 (* ---- restrictions of the generated table *)
 Definition owner_in (os : list string) (a : access) : bool :=
   existsb (fun o => prefix (o ++ ".") (a_field a)) os.
